@@ -12,14 +12,13 @@ import Scico.Model.LinSolve
 open Lean Scico Scico.Wire Scico.LinSolve
 
 /-- everything the driver needs of a scalar type -/
-class Sc (α : Type) extends Add α, Sub α, Mul α, Div α, Neg α, Zero α, One α, HasConj α, Inhabited α where
+class Sc (α : Type) extends Add α, Sub α, Mul α, Div α, Neg α, Zero α, One α, HasConj α, HasIsZero α, Inhabited α where
   dec : List Float → Option (List α)
   enc : List α → List Float
   absSq : α → Float
   gtReal : α → Float → Bool
   sqrtRe : α → Float
   ofFloat : Float → α
-  isZ : α → Bool
 
 instance : Sc Float where
   dec l := some l
@@ -55,7 +54,7 @@ def fnorm (v : FVec α) : Float := Float.sqrt (v.d.foldl (fun s x => s + Sc.absS
 def lnorm (l : List α) : Float := Float.sqrt (l.foldl (fun s x => s + Sc.absSq x) 0)
 
 def fops : CGOps α Float (FVec α) :=
-  { inner := FVec.inner, norm := fnorm, gtReal := Sc.gtReal, sqrtRe := Sc.sqrtRe, isZero := Sc.isZ }
+  { inner := FVec.inner, norm := fnorm, gtReal := Sc.gtReal, sqrtRe := Sc.sqrtRe, isZero := HasIsZero.isZ }
 
 def jV (l : List α) : Json := jFs (Sc.enc l)
 
